@@ -744,7 +744,9 @@ func (lb *LoadBalancer) proxyRequest(backend *Backend, w http.ResponseWriter, r 
 	// Track the active connection
 	backend.IncrementConnections()
 	vhook.Yield("lb.proxy.inc")
-	lb.metricsCollector.UpdateBackendConnections(backend.Name, backend.GetActiveConnections())
+	inFlight := backend.GetActiveConnections()
+	vhook.Yield("lb.proxy.publish")
+	lb.metricsCollector.UpdateBackendConnections(backend.Name, inFlight)
 
 	// Create a custom response writer to capture the status code
 	rw := &responseWriter{
@@ -757,7 +759,9 @@ func (lb *LoadBalancer) proxyRequest(backend *Backend, w http.ResponseWriter, r 
 	defer func() {
 		backend.DecrementConnections()
 		vhook.Yield("lb.proxy.dec")
-		lb.metricsCollector.UpdateBackendConnections(backend.Name, backend.GetActiveConnections())
+		inFlight := backend.GetActiveConnections()
+		vhook.Yield("lb.proxy.publish")
+		lb.metricsCollector.UpdateBackendConnections(backend.Name, inFlight)
 
 		if rec := recover(); rec != nil {
 			// The response was cut short: count the request as failed. The
